@@ -329,7 +329,7 @@ class P(Prop):
             "samples of 1e6..3e20 (one sign per signal) at the first valid index / anywhere / at the last valid index among small values or a constant stretch, every sample at its own "
             "scale 1e-6..1e13, or a large common offset with metre-level variations (tag dynamic_range); every output is judged with a tolerance local to its own window "
             "(1e-12 of the largest sample carrying a positive weight; a copied boundary value exactly); kernels: odd weight "
-            "lists with positive weights (symmetric and asymmetric, integer/dyadic/decimal), integers (filter_seq, incl. the default kernel), the built-in "
+            "lists with positive weights (symmetric and asymmetric, integer/dyadic/decimal, or every weight at its own scale 1e-6..1e7), integers (filter_seq, incl. the default kernel), the built-in "
             "non-negative kernels Uniform/Triangular/Epanechnikov/Gaussian/Exponential/Cubic/Spheric/Dirac with widths 1..5, boundary and "
             "non-integer widths, user-defined kernels (Kernel + setFunction) returning Python ints / floats / bools / numpy scalars from a table or a closed form "
             "(0 at the support edge or not), filterBoundary set to True / False / never set; features via track.operate(FILTER) incl. output into an existing / the same / a new feature / "
@@ -411,8 +411,11 @@ class P(Prop):
     def rand_weights(self, rng):
         D = rng.choice([0, 1, 1, 1, 2, 2, 3, 4])
         N = 2 * D + 1
-        style = rng.choice(["int", "int", "dyadic", "sym", "decimal", "ones"])
-        if style == "int":
+        style = rng.choice(["int", "int", "dyadic", "sym", "decimal", "ones", "scales"])
+        if style == "scales":
+            # weights of very different orders of magnitude: none of them may be dropped or flushed
+            w = [round(rng.uniform(1, 10), 2) * 10.0 ** rng.randrange(-6, 7) for _ in range(N)]
+        elif style == "int":
             w = [rng.randrange(1, 9) for _ in range(N)]
         elif style == "dyadic":
             w = [rng.randrange(1, 33) / 8 for _ in range(N)]
